@@ -13,6 +13,10 @@ CONSTANTS
   AllowOrphans = FALSE
   StartCheck = TRUE
   MaxCalls = 3
+  SubNode = "none"
+  InnerBefore = FALSE
+  InnerAfter = FALSE
+  StaleForward = FALSE
 INIT Init
 NEXT Next
 INVARIANT RuleHolds
